@@ -18,27 +18,34 @@
 (* render is refused; when it succeeds the reference is the path of the    *)
 (* element that carries the name now.                                      *)
 EXTENDS Naturals, Sequences, FiniteSets, TLC
-CONSTANTS Names, MaxOps, WithRefs
-VARIABLES root, grp, hist, last, inspect, marked, refs
-svars == <<root, grp, hist, last, inspect, marked, refs>>
-SOInit == root = <<"q0">> /\ grp = <<"g0">> /\ hist = <<>> /\ last = "none" /\ inspect \in BOOLEAN /\ marked = FALSE /\ refs = <<>>
+CONSTANTS Names, MaxOps, WithRefs, WithMove
+(* Move: the caller takes the group out of the root and attaches it below a *)
+(* new root-level group "h" (re-parenting through remove / add_child): the *)
+(* paths of everything in it change; every later render shows the new ones.*)
+VARIABLES root, grp, hist, last, inspect, marked, refs, moved
+svars == <<root, grp, hist, last, inspect, marked, refs, moved>>
+SOInit == root = <<"q0">> /\ grp = <<"g0">> /\ hist = <<>> /\ last = "none" /\ inspect \in BOOLEAN /\ marked = FALSE /\ refs = <<>> /\ moved = FALSE
 Dup(s) == \E i, j \in 1..Len(s) : i # j /\ s[i] = s[j]
 \* the group itself is a child of the root named "grp"
 Ambiguous == Dup(root \o <<"grp">>) \/ Dup(grp)
-AddRoot(n) == Len(hist) < MaxOps /\ root' = Append(root, n) /\ hist' = Append(hist, <<"add_root", n>>) /\ UNCHANGED <<grp, last, inspect, marked, refs>>
-AddGroup(n) == Len(hist) < MaxOps /\ grp' = Append(grp, n) /\ hist' = Append(hist, <<"add_group", n>>) /\ UNCHANGED <<root, last, inspect, marked, refs>>
-Mark == Len(hist) < MaxOps /\ ~marked /\ marked' = TRUE /\ hist' = Append(hist, <<"mark", "q0">>) /\ UNCHANGED <<root, grp, last, inspect, refs>>
+AddRoot(n) == Len(hist) < MaxOps /\ root' = Append(root, n) /\ hist' = Append(hist, <<"add_root", n>>) /\ UNCHANGED <<grp, last, inspect, marked, refs, moved>>
+AddGroup(n) == Len(hist) < MaxOps /\ grp' = Append(grp, n) /\ hist' = Append(hist, <<"add_group", n>>) /\ UNCHANGED <<root, last, inspect, marked, refs, moved>>
+Mark == Len(hist) < MaxOps /\ ~marked /\ marked' = TRUE /\ hist' = Append(hist, <<"mark", "q0">>) /\ UNCHANGED <<root, grp, last, inspect, refs, moved>>
 \* how many elements of the whole tree carry the name n (references are by bare name, whatever the section)
 Count(n) == Cardinality({i \in 1..Len(root) : root[i] = n}) + Cardinality({i \in 1..Len(grp) : grp[i] = n})
 RefBroken == \E i \in 1..Len(refs) : Count(refs[i]) # 1
-TargetPath(n) == IF \E i \in 1..Len(root) : root[i] = n THEN <<n>> ELSE <<"grp", n>>
-AddRef(n) == WithRefs /\ Len(hist) < MaxOps /\ Len(refs) < 2 /\ refs' = Append(refs, n) /\ hist' = Append(hist, <<"add_ref", n>>) /\ UNCHANGED <<root, grp, last, inspect, marked>>
-Render == Len(hist) < MaxOps /\ last' = (IF Ambiguous \/ RefBroken THEN "rejected" ELSE "ok") /\ hist' = Append(hist, <<"render", last'>>) /\ UNCHANGED <<root, grp, inspect, marked, refs>>
-SONext == (\E n \in Names : AddRoot(n) \/ AddGroup(n) \/ AddRef(n)) \/ Mark \/ Render
+GroupPath == IF moved THEN <<"h", "grp">> ELSE <<"grp">>
+TargetPath(n) == IF \E i \in 1..Len(root) : root[i] = n THEN <<n>> ELSE Append(GroupPath, n)
+Move == WithMove /\ Len(hist) < MaxOps /\ ~moved /\ moved' = TRUE /\ hist' = Append(hist, <<"move", "grp">>) /\ UNCHANGED <<root, grp, last, inspect, marked, refs>>
+AddRef(n) == WithRefs /\ Len(hist) < MaxOps /\ Len(refs) < 2 /\ refs' = Append(refs, n) /\ hist' = Append(hist, <<"add_ref", n>>) /\ UNCHANGED <<root, grp, last, inspect, marked, moved>>
+Render == Len(hist) < MaxOps /\ last' = (IF Ambiguous \/ RefBroken THEN "rejected" ELSE "ok") /\ hist' = Append(hist, <<"render", last'>>) /\ UNCHANGED <<root, grp, inspect, marked, refs, moved>>
+SONext == (\E n \in Names : AddRoot(n) \/ AddGroup(n) \/ AddRef(n)) \/ Mark \/ Move \/ Render
 SOSpec == SOInit /\ [][SONext]_svars
 \* an accepted render implies an unambiguous tree at that moment (the history does not matter)
 AcceptedMeansUnambiguous == (Len(hist) > 0 /\ hist[Len(hist)][1] = "render" /\ hist[Len(hist)][2] = "ok") => ~Ambiguous
 AcceptedMeansReferencesResolve == (Len(hist) > 0 /\ hist[Len(hist)][1] = "render" /\ hist[Len(hist)][2] = "ok") => ~RefBroken
 \* the elements whose bind carries the attribute given by Mark: the base question alone
+\* where the elements of the group are at a render
+GroupChildPaths == {Append(GroupPath, grp[i]) : i \in 1..Len(grp)}
 MarkedPaths == IF marked THEN {<<"q0">>} ELSE {}
 =============================================================================
